@@ -297,6 +297,11 @@ class SchemaBuilder(
     ) -> Sequence[Property]:
         raise NotImplementedError
 
+    def _dependent_required(
+        self, properties: Sequence[Property], dependencies: Collection[str]
+    ) -> Collection[str]:
+        return dependencies
+
     def object(self, tp: AnyType, fields: Sequence[ObjectField]) -> JsonSchema:
         cls = get_origin_or_type(tp)
         properties = sort_by_order(
@@ -345,10 +350,12 @@ class SchemaBuilder(
                 additionalProperties=additional_properties,
                 patternProperties=pattern_properties,
                 dependentRequired={
-                    alias_by_names(f): sorted(
-                        map(alias_by_names, dependent_required[f])
-                    )
+                    alias_by_names(f): sorted(map(alias_by_names, dependencies))
                     for f in sorted(dependent_required, key=alias_by_names)
+                    for dependencies in [
+                        self._dependent_required(properties, dependent_required[f])
+                    ]
+                    if dependencies
                 },
             )
         )
@@ -501,6 +508,13 @@ class SerializationSchemaBuilder(
     SerializationObjectVisitor[JsonSchema],
 ):
     RefsExtractor = SerializationRefsExtractor
+
+    def _dependent_required(
+        self, properties: Sequence[Property], dependencies: Collection[str]
+    ) -> Collection[str]:
+        # a field which can be skipped may be omitted whatever the fields requiring it
+        emitted = {prop.name for prop in properties if prop.required}
+        return [dep for dep in dependencies if dep in emitted]
 
     @staticmethod
     def _field_required(field: ObjectField):
